@@ -430,9 +430,17 @@ fn validate_fields(input: &Struct, data_type_attrs: &DataTypeAttrs, data_type_at
 
     if !input.named_fields {
         for (data_type_attr, kind) in data_type_attrs_by_kind {
-            if data_type_attr.quick_return.is_none() && data_type_attr.type_hint == TypeHint::Struct {
+            if data_type_attr.quick_return.is_none() {
                 for field in &input.fields {
                     if field.attrs.ghost(&data_type_attr.ty, kind).is_some() || field.attrs.has_parent_attr(&data_type_attr.ty) {
+                        continue;
+                    }
+
+                    // the nested struct a #[child(...)] member is written into has a shape of its own, given in #[child_parents(...)]
+                    let nested_struct_shaped = field.attrs.child(&data_type_attr.ty).is_some_and(|child_attr| data_type_attrs.child_parents_attr(&data_type_attr.ty)
+                        .and_then(|x| x.child_parents.iter().find(|child_data| child_data.check_match(child_attr.get_child_path_str(None))))
+                        .is_some_and(|child_data| child_data.type_hint == TypeHint::Struct));
+                    if data_type_attr.type_hint != TypeHint::Struct && !nested_struct_shaped {
                         continue;
                     }
 
